@@ -75,6 +75,10 @@ func runConcUni(tier string, seed int64) {
 		}
 		mu.Unlock()
 	}
+	stopGC := func() {}
+	if seed%2 == 1 { // every other process runs under a busy collector
+		stopGC = gcStorm()
+	}
 	var wg sync.WaitGroup
 	for _, w := range ws {
 		wg.Add(1)
@@ -109,6 +113,7 @@ func runConcUni(tier string, seed int64) {
 		}(w)
 	}
 	wg.Wait()
+	stopGC()
 	for wi, w := range ws {
 		if w.o.panicked || w.o.timeout {
 			emit(w.o.into(Event{"op": "Check", "in": units(w.vs[0].s), "lang": w.lang, "err": errRec(nil), "valid": false, "in_same": true,
